@@ -83,6 +83,7 @@ func checkParser(c *checkCtx, prop string) {
 		s      *wsSpec
 		inputs [][]int
 		sent   []bool // input k was produced by a derivation of the grammar
+		plain  *jDump // the sugared grammar desugared independently by the harness (right-recursive helpers)
 		tabs   *parserTables
 	}
 	var jobs []*job
@@ -134,6 +135,19 @@ func checkParser(c *checkCtx, prop string) {
 					m = append(m[:p], append([]int{1}, m[p:]...)...)
 				}
 				addIn(m, false)
+			}
+		}
+		if g, ok := j.s.tag.(*gSpec); ok && !recovery {
+			// sentences derived from the SUGARED grammar by the documented meaning of ? * + *! @list
+			ti := map[string]int{}
+			for _, t := range s.dump.Terminals {
+				ti[t.Name] = t.Index
+			}
+			j.plain = plainGrammar(g, ti)
+			for k := 0; k < nInputs/2; k++ {
+				if w, ok := sampleSugar(c.rng, g, ti, 2+c.rng.intn(4)); ok {
+					addIn(w, true)
+				}
 			}
 		}
 		if recovery && (c.thorough() || j.s.tag == "corpus") {
@@ -271,6 +285,22 @@ func checkParser(c *checkCtx, prop string) {
 			}
 			acc := strings.HasPrefix(implOut[k], "ACC")
 			isSent := j.sent[k]
+			if j.plain != nil && !recovery {
+				// independent language oracle: Earley over the harness's own desugaring
+				want := earleyAccepts(j.plain, w)
+				if want != acc {
+					found = true
+					what := "rejects the sentence"
+					if acc {
+						what = "accepts the non-sentence"
+					}
+					c.addFinding(finding{Signature: "parser-" + strings.Fields(what)[0] + "-wrongly",
+						Desc:   fmt.Sprintf("the generated parser %s %v (sugar read as documented: x? x* x+ x*! @list)", what, tokenNames(j.s.dump, w)),
+						Replay: map[string]any{"spec": j.s.loxText, "tokens": w, "token_names": tokenNames(j.s.dump, w), "parser": implOut[k]}})
+					break
+				}
+				continue
+			}
 			if !isSent && broken {
 				isSent = earleyAccepts(j.s.dump, w)
 			} else if !isSent {
